@@ -4,7 +4,8 @@
    Print Assumptions.  Model: Model/Value.v (interp/value.go, the twelve comparison
    opcodes of interp/vm.go, strconv.ParseFloat's syntax and rounding contract). *)
 From Verif Require Import Lib.Base Lib.Dyadic Lib.Utf8 Model.Value
-  Proofs.ValueCmp Proofs.ValueStr Proofs.ValueScan Proofs.ValueGrammar Proofs.ValueAccept.
+  Proofs.ValueCmp Proofs.ValueStr Proofs.ValueScan Proofs.ValueGrammar Proofs.ValueAccept Proofs.ValueFields.
+From Verif Require Lib.Regex Model.Fields.
 
 (* ================================================================== *)
 (* 1. number -> string                                                 *)
@@ -192,6 +193,64 @@ Print Assumptions C05_one_outcome.
 Theorem C05_provenance_tags : forall p s,
   prov_value p s = match p with PConst | PComputed => VStr s | _ => VNumStr s end.
 Proof. reflexivity. Qed.
+
+(* ================================================================== *)
+(* 4b. input text entering through the record: typing is per record    *)
+(* ================================================================== *)
+(* Over the model of interp.go's record machinery (Model/Fields.v; p.fieldsIsTrueStr is
+   fields_true), for ANY regex engine and ANY state s - i.e. whatever earlier records, field
+   assignments, NF changes, FS changes left behind. *)
+
+(* a record arrives (setLine(t, false)): $0 and every existing field are numeric-string
+   candidates; only a position beyond NF reads as the string "" *)
+Theorem C05_fresh_record_flags : forall rx all_matches (s : Fields.state rx) t k s1 f b,
+  Fields.get_field rx all_matches (Fields.set_line rx s t false) k = Ok (s1, f, b) ->
+  b = false \/ (k <> 0 /\ f = [] /\ b = true /\
+                (let n := zlen (Fields.fields rx s1) in let j := if k <? 1 then n + 1 + k else k in j < 1 \/ j > n)).
+Proof. exact fresh_record_flags. Qed.
+Print Assumptions C05_fresh_record_flags.
+
+(* record-to-record independence: text and typing of every field of a record depend only on the
+   record and on FS / RS / input mode - not on the history *)
+Theorem C05_fresh_record_independent_of_history : forall rx all_matches (s s' : Fields.state rx) t k,
+  Fields.fs rx s = Fields.fs rx s' -> Fields.fs_re rx s = Fields.fs_re rx s' ->
+  Fields.rs rx s = Fields.rs rx s' -> Fields.inmode rx s = Fields.inmode rx s' ->
+  match Fields.get_field rx all_matches (Fields.set_line rx s t false) k,
+        Fields.get_field rx all_matches (Fields.set_line rx s' t false) k with
+  | Ok (_, f, b), Ok (_, f', b') => f = f' /\ b = b'
+  | Err m, Err m' => m = m'
+  | Panic, Panic => True
+  | Unmod, Unmod => True
+  | _, _ => False
+  end.
+Proof. exact fresh_record_independent. Qed.
+Print Assumptions C05_fresh_record_independent_of_history.
+
+(* after "$0 = t" the fields are re-split and are numeric-string candidates again *)
+Theorem C05_assigned_record_flags : forall rx all_matches (s : Fields.state rx) t k s0 s1 f b,
+  Fields.set_field rx all_matches s 0 t = Ok s0 -> Fields.get_field rx all_matches s0 k = Ok (s1, f, b) ->
+  (k = 0 /\ b = true) \/ b = false \/ (k <> 0 /\ f = [] /\ b = true).
+Proof. exact assigned_record_flags. Qed.
+Print Assumptions C05_assigned_record_flags.
+
+(* hence a field of a freshly read record is a numeric operand exactly when parseFloat accepts
+   its text (by C05_numeric_text_accepted / C05_accepted_is_numeric: when it is in the AWK numeric
+   grammar between ASCII blanks) - whatever came before *)
+Theorem C05_fresh_field_numeric_iff : forall rx all_matches (s : Fields.state rx) t k s1 f b,
+  Fields.get_field rx all_matches (Fields.set_line rx s t false) k = Ok (s1, f, b) ->
+  (exists x, numeric_operand (field_value f b) = Some x) <-> (exists x, parse_float f = PFOk x).
+Proof. exact fresh_field_numeric_iff. Qed.
+Print Assumptions C05_fresh_field_numeric_iff.
+
+Example C05_ex_history :
+  (* record "a 5 x", $2 = "seen" (field 2 is a string), then record "b 10 9": field 2 is the
+     numeric string "10" again and compares numerically: ($2 < 9) = 0 *)
+  (do s1 <- xset_field (xread Fields.xinit [97;32;53;32;120]) 2 [115;101;101;110];
+   do (s2, v) <- xfield s1 2;
+   do (s3, w) <- xfield (xread s2 [98;32;49;48;32;57]) 2;
+   do r <- site_Less str_fmt6g w (VNum (FFin 9 0));
+   Ok (v, w, r)) = Ok (VStr [115;101;101;110], VNumStr [49;48], VNum fzero).
+Proof. vm_compute. reflexivity. Qed.
 
 (* ================================================================== *)
 (* 5. mutual consistency of the six operators                          *)
